@@ -89,6 +89,10 @@ func paramDecremented() paramMigrator {
 		// if param is a number literal then we can do the decrementing now
 		asInt, err := strconv.Atoi(param)
 		if err == nil {
+			// negative indexes count from the end in both syntaxes, so they stay as they are
+			if asInt < 0 {
+				return param
+			}
 			return strconv.Itoa(asInt - 1)
 		}
 
